@@ -162,4 +162,10 @@ ColdScalarForm(r, m, hp) ==
                 ColdFromScalar(ImplColdCount(r, m), r, m, IF hp THEN 1 ELSE 0, LAMBDA tr, v, t : ImplColdSrc(r, m, tr, v, t)))
     /\ SamePair(RefColdfilt(r, m, ~hp),
                 ColdFromScalar(RefColdCount(r, m), r, m, IF ~hp THEN 0 ELSE 1, LAMBDA tr, v, t : RefColdSrc(r, m, tr, v, t)))
+IfiltFromScalar(r, m, Pos(_, _, _)) ==
+    [a |-> FromSrc(2 * r, m, r, LAMBDA y, t : IfiltExt(r, m, Pos("a", y, t))),
+     b |-> FromSrc(2 * r, m, r, LAMBDA y, t : IfiltExt(r, m, Pos("b", y, t)))]
+IfiltScalarForm(r, m, hp) ==
+    /\ SamePair(ImplColifilt(r, m, hp), IfiltFromScalar(r, m, LAMBDA tr, y, t : ImplIfiltPos(m, hp, tr, y, t)))
+    /\ SamePair(RefColifilt(r, m, ~hp), IfiltFromScalar(r, m, LAMBDA tr, y, t : RefIfiltPos(m, ~hp, tr, y, t)))
 =============================================================================
